@@ -172,11 +172,11 @@ def plan(prop, tier):
         P += S("release", "zst", depth=4) + S("debug", "zst", depth=3)
         P += S("miri", "hist", n=5 if q else 120, shards=8 if q else 14, profile="ub", timeout=3000, leaks_ok=False)
         P += S("miri", "sentinels", timeout=3000)
+        P += S("miri", "sets", n=2 if q else 12, shards=1 if q else 3, timeout=3000)
         if not q:
             P += S("msan", "hist", n=6000, shards=3, profile="ub", timeout=2400)
             P += S("valgrind", "hist", n=1500, shards=3, profile="ub", timeout=2400)
             P += S("miri", "chains", shards=6, stride=900, timeout=3000)
-            P += S("miri", "sets", n=4, shards=2, timeout=3000)
     elif prop == "C06":
         P += S("release", "hist", n=5000 if q else 40000, shards=8, profile="drops")
         P += S("debug", "hist", n=1500 if q else 10000, shards=2, profile="drops")
@@ -206,6 +206,7 @@ def plan(prop, tier):
         P += S("release", "sweep", shards=4 if q else 8, maxlen=500 if q else 2400, dense=200 if q else 600, timeout=3000)
         P += S("debug", "sweep", shards=2, maxlen=100 if q else 200, dense=50 if q else 100, timeout=1800)
         P += S("release", "limits", n=300 if q else 3000, shards=2) + S("debug", "limits", n=300 if q else 3000, shards=2)
+        P += S("release", "withcap", shards=2 if q else 6, max=1200 if q else 4000) + S("debug", "withcap", shards=1, max=300 if q else 1000)
     elif prop == "C11":
         P += S("release", "hist", n=8000 if q else 40000, shards=4, profile="clone")
         P += S("release", "clones", n=6000 if q else 60000, shards=8)
